@@ -457,13 +457,15 @@ example : C07Arms.exprArms.length = 20 := by decide
       assignment to local variables and their fields, calls of functions
       (argument count and types), constructors of user enums, `Option.Some(e)`,
       `Option.None`, typed record literals (field names and types), list
-      literals (also `[]`), `?`, `return` / `accept` / `reject` with and
-      without value —
+      literals (also `[]`), `?`, `match` over `Option` and user enums with
+      binders, guards and `_` (at least one arm; the count-based exhaustiveness
+      test of `match_expr` is shown to imply the declarative one by a pigeonhole
+      argument), `return` / `accept` / `reject` with and without value —
   under the hypothesis that the store the body check leaves behind HAS A
   SOLUTION in ground types (`∃ σ, GVal σ ∧ Sat σ st.store`; `TcInfer.satB`
   decides a proposed solution).
   MISSING, precisely:
-    (a) outside the fragment: `match`, method calls, compound assignment, `/`
+    (a) outside the fragment: method calls, compound assignment, arm-less `match`, `/`
         (its `IpAddr / u8` case builds a `Prefix`, which the declarative rules do
         not have), f-strings (and with them `resolve_obligations`: for a body of
         the fragment the obligations stay empty — `inferFn_store`);
